@@ -243,7 +243,7 @@ where
 
         let mut last_state = self.positions.clone();
 
-        let mut last_state_data = last_state.to_data();
+        let mut last_state_data = last_state.to_data().convert::<T>();
         if let Err(e) = tracker.step(last_state_data.as_slice::<T>().unwrap()) {
             eprintln!("Warning: Shown progress statistics may be unreliable since updating them failed with: {}", e);
         }
@@ -262,7 +262,7 @@ where
             pb.inc(1);
             last_state = current_state;
 
-            last_state_data = last_state.to_data();
+            last_state_data = last_state.to_data().convert::<T>();
             if let Err(e) = tracker.step(last_state_data.as_slice::<T>().unwrap()) {
                 eprintln!("Warning: Shown progress statistics may be unreliable since updating them failed with: {}", e);
             }
